@@ -562,6 +562,6 @@ func c11Worker(sh *explore.Shard) {
 
 func init() {
 	Registry["C11"] = &Check{Level: "exploration", Worker: c11Worker, QuickBudget: 60 * time.Second, ThoroughBudget: 10 * time.Minute,
-		Rule: "synthetic measurement vectors rendered in-process by the real TableString/JSON/json.Marshal: (1) each of the 22 metrics at {0,1,k*ref-1,k*ref,k*ref+1,(k+0.7)*ref for k=0..31, 45*ref, 1000*ref, cap-1, cap} x 12 thresholds (negative, 0, fractional, 29.99/30/30.01, 31, 35, 1e9, +Inf) x 3 name styles; (2) every pair of metrics both visible with shared/distinct cited objects; (3) every subset of visible rows per section with the other sections all visible/all hidden (quick) or all 2^22 subsets (thorough), with refgroup rows. The table must equal byte-for-byte the text constructed from the JSON v1 numbers and JSON v2 reference values by the statement's rules; JSON v2 value/levelOfConcern/prefixes must agree with JSON v1; rows only disappear as the threshold rises",
+		Rule:        "synthetic measurement vectors rendered in-process by the real TableString/JSON/json.Marshal: (1) each of the 22 metrics at {0,1,k*ref-1,k*ref,k*ref+1,(k+0.7)*ref for k=0..31, 45*ref, 1000*ref, cap-1, cap} x 12 thresholds (negative, 0, fractional, 29.99/30/30.01, 31, 35, 1e9, +Inf) x 3 name styles; (2) every pair of metrics both visible with shared/distinct cited objects; (3) every subset of visible rows per section with the other sections all visible/all hidden (quick) or all 2^22 subsets (thorough), with refgroup rows. The table must equal byte-for-byte the text constructed from the JSON v1 numbers and JSON v2 reference values by the statement's rules; JSON v2 value/levelOfConcern/prefixes must agree with JSON v1; rows only disappear as the threshold rises",
 		Assumptions: []string{"value/referenceValue is evaluated as IEEE double division, as JSON consumers would", "the numeral inside a cell is taken from FormatNumber (its correctness is C12's)"}}
 }
